@@ -25,18 +25,6 @@ constexpr int EVLOG = 128;
 
 // Relaxed-atomic cell: plain loads/stores for the hardware, but not a data race for TSan and, being
 // relaxed and never a read-modify-write, it creates no happens-before edge between the threads under test.
-template <typename T> struct rlx {
-    std::atomic<T> v{};
-    rlx() = default;
-    rlx(T x) : v(x) {}
-    rlx(const rlx &o) : v(o.v.load(std::memory_order_relaxed)) {}
-    rlx &operator=(const rlx &o) { v.store(o.v.load(std::memory_order_relaxed), std::memory_order_relaxed); return *this; }
-    operator T() const { return v.load(std::memory_order_relaxed); }
-    T operator=(T x) { v.store(x, std::memory_order_relaxed); return x; }
-    T operator++() { T n = v.load(std::memory_order_relaxed) + 1; v.store(n, std::memory_order_relaxed); return n; }
-    T operator++(int) { T o = v.load(std::memory_order_relaxed); v.store(o + 1, std::memory_order_relaxed); return o; }
-    T operator+=(T d) { T n = v.load(std::memory_order_relaxed) + d; v.store(n, std::memory_order_relaxed); return n; }
-};
 
 struct stall_entry {
     rlx<int> site = -1;
@@ -273,12 +261,11 @@ inline bool process_quiescent(pid_t self, std::string &desc) {
         char st = '?';
         if (!read_task_state(t, st)) continue; // thread vanished
         if (at_barrier) { continue; }
-        if (st == 'S' || st == 'D') {
-            any_blocked = true;
-            char b[160];
-            snprintf(b, sizeof b, "[thread team=%d state=%c last_site=%s]", tid, st, last >= 0 ? cocls::verif::site_names[last] : "-");
-            desc += b;
-        } else ok = false;
+        char b[160];
+        snprintf(b, sizeof b, "[thread team=%d state=%c last_site=%s]", tid, st, last >= 0 ? cocls::verif::site_names[last] : "-");
+        desc += b;
+        if (st == 'S' || st == 'D') any_blocked = true;
+        else ok = false;
     }
     closedir(d);
     return ok && any_blocked;
@@ -286,11 +273,12 @@ inline bool process_quiescent(pid_t self, std::string &desc) {
 
 inline void watchdog_main() {
     pid_t self = gettid_();
-    uint64_t last = g_team.progress.load(std::memory_order_relaxed);
+    auto progress_now = [] { report *r = g_active_report.load(std::memory_order_relaxed); return g_team.progress.load(std::memory_order_relaxed) + (r ? (uint64_t)r->cases : 0); };
+    uint64_t last = progress_now();
     int still = 0, quiet = 0;
     while (!g_team.watchdog_stop.load(std::memory_order_relaxed)) {
         usleep(50 * 1000);
-        uint64_t cur = g_team.progress.load(std::memory_order_relaxed);
+        uint64_t cur = progress_now(); // team rounds and finished cases of single-thread scenarios
         if (cur != last || g_team.expect_blocked.load(std::memory_order_relaxed)) { last = cur; still = 0; quiet = 0; continue; }
         still++;
         std::string desc;
@@ -299,11 +287,17 @@ inline void watchdog_main() {
         if (quiet >= 50) kind = "hang";               // 2.5 s of provable quiescence without progress
         else if (still >= 20 * 240) kind = "livelock"; // 4 minutes without a single finished case
         if (kind) {
-            report *r = g_active_report;
+            report *r = g_active_report.load(std::memory_order_relaxed);
             std::string site = "-";
             size_t p = desc.find("last_site=");
             if (p != std::string::npos) { size_t e = desc.find(']', p); site = desc.substr(p + 10, e - p - 10); }
             fprintf(stderr, "VF-HANG kind=%s %s ctx=%s\n", kind, desc.c_str(), g_crash.buf);
+            fflush(stderr);
+            if (DIR *d = opendir("/proc/self/task")) { // stack of every other thread (diagnostics only)
+                while (auto *e = readdir(d)) { pid_t t = (pid_t)atoi(e->d_name); if (e->d_name[0] != '.' && t != self) syscall(SYS_tgkill, getpid(), t, SIGUSR2); }
+                closedir(d);
+                usleep(300 * 1000);
+            }
             if (r) {
                 r->violation(std::string(kind) + "|" + site, std::string("no progress; ") + desc,
                              jobj().raw("ctx", g_crash.buf).kv("threads", desc).str());
